@@ -12,6 +12,7 @@ def run(F, G, tier, seed):
         scopes.frames_typing(chk, F, G, T, cls, rid="R-FRAMES[%s]" % tag)
     scopes.resolve_rules(chk, F)
     scopes.push_parent(chk, F)
+    scopes.no_symbol_cache(chk, F)
     return chk.finish(
         "Decides that the scope on top of the frame stack at every identifier callback is the one the grammar position "
         "implies: exact stack-effect typing of every callback (normal and caught-exception exits) and production, "
